@@ -57,7 +57,8 @@ Section WithRepairs.
       end in
     match sign_with with
     | (ROk, Some (signer, iss)) =>
-      let crt := mkCert (g_subj c) (g_vis c) (g_blind c) iss pub signer false in
+      (* a certificate whose configured end of validity has already passed is expired the moment it is written *)
+      let crt := mkCert (g_subj c) (g_vis c) (g_blind c) iss pub signer (negb (g_until_future c)) in
       (ROk, Some (mkFile (Some (hview_of c)) (Some crt) key (f_req a) now), nextkey')
     | (r, _) => (r, None, nextkey)
     end.
